@@ -62,7 +62,7 @@ impl TypeChecker {
             Declaration::Import(_) => {} // Already handled
             Declaration::Const(konst) => self.check_const(konst, decl.span),
             Declaration::Model(model) => self.check_model(model),
-            Declaration::Class(class) => self.check_class(class),
+            Declaration::Class(class) => self.check_class(class, decl.span),
             Declaration::Trait(tr) => self.check_trait(tr),
             Declaration::Newtype(nt) => self.check_newtype(nt),
             Declaration::Enum(en) => self.check_enum(en),
@@ -284,7 +284,33 @@ impl TypeChecker {
         }
     }
 
-    fn check_class(&mut self, class: &ClassDecl) {
+    /// Does following `extends` from `class_name` lead back to `class_name`?
+    fn inherits_from_itself(&self, class_name: &str) -> bool {
+        let mut seen: Vec<String> = Vec::new();
+        let mut current = class_name.to_string();
+        loop {
+            let parent = self
+                .symbols
+                .lookup(&current)
+                .and_then(|id| self.symbols.get(id))
+                .and_then(|sym| match &sym.kind {
+                    SymbolKind::Type(TypeInfo::Class(info)) => info.extends.clone(),
+                    _ => None,
+                });
+            match parent {
+                Some(p) if p == class_name => return true,
+                // A cycle further up the chain is reported at the classes that are part of it.
+                Some(p) if seen.contains(&p) => return false,
+                Some(p) => {
+                    seen.push(p.clone());
+                    current = p;
+                }
+                None => return false,
+            }
+        }
+    }
+
+    fn check_class(&mut self, class: &ClassDecl, span: Span) {
         self.symbols.enter_scope(ScopeKind::Class);
 
         // Validate @derive decorators
@@ -293,7 +319,12 @@ impl TypeChecker {
         // Check base class exists
         if let Some(base) = &class.extends {
             if self.symbols.lookup(base).is_none() {
-                self.errors.push(errors::unknown_symbol(base, Span::default()));
+                self.errors.push(errors::unknown_symbol(base, span));
+            } else if self.inherits_from_itself(&class.name) {
+                self.errors.push(crate::frontend::diagnostics::CompileError::type_error(
+                    format!("Class '{}' inherits from itself", class.name),
+                    span,
+                ));
             }
         }
 
